@@ -255,18 +255,19 @@ func (h *Handler) SendMessage(ctx context.Context, s *xmpp.Session, r xml.TokenR
 //
 // SendMessageElement is safe for concurrent use by multiple goroutines.
 func (h *Handler) SendMessageElement(ctx context.Context, s *xmpp.Session, payload xml.TokenReader, msg stanza.Message) error {
-	if h.sent == nil {
-		h.m.Lock()
-		h.sent = make(map[string]chan struct{})
-		h.m.Unlock()
-	}
-
 	if msg.ID == "" {
 		msg.ID = attr.RandomID()
 	}
 
-	c := make(chan struct{})
+	// The channel is buffered and never closed: the handler removes the entry
+	// before it sends, so there is at most one send per channel, which must
+	// neither block the session's serve loop (if we gave up in the meantime)
+	// nor panic.
+	c := make(chan struct{}, 1)
 	h.m.Lock()
+	if h.sent == nil {
+		h.sent = make(map[string]chan struct{})
+	}
 	h.sent[msg.ID] = c
 	h.m.Unlock()
 
@@ -276,6 +277,9 @@ func (h *Handler) SendMessageElement(ctx context.Context, s *xmpp.Session, paylo
 	}
 	err := s.SendElement(ctx, r, msg.StartElement())
 	if err != nil {
+		h.m.Lock()
+		delete(h.sent, msg.ID)
+		h.m.Unlock()
 		return err
 	}
 
@@ -286,7 +290,6 @@ func (h *Handler) SendMessageElement(ctx context.Context, s *xmpp.Session, paylo
 		h.m.Lock()
 		delete(h.sent, msg.ID)
 		h.m.Unlock()
-		close(c)
 		return ctx.Err()
 	}
 }
